@@ -361,6 +361,33 @@ fn odd_param_sessions(prop: &str, r: &mut Rng) -> Vec<Session> {
 
 /// CSI sequences with many parameters (15 .. 100), whole and split: a recogniser or a listener that
 /// keeps its parameters in a fixed-size buffer shows here and nowhere else
+/// CSI parameters of every SIZE, with the cursor away from the origin: five to ten digits that still fit
+/// 32 bits, the 31 / 32 / 64-bit boundaries and beyond.  The documented value of all of them is 9999
+/// (round 8: a cap that only caught what overflowed the integer type passed every stream that had
+/// either small numbers or twenty-digit ones).
+fn big_number_sessions(prop: &str) -> Vec<Session> {
+    let sizes = [
+        "9999", "10000", "12345", "65535", "65536", "99999", "2147483647", "2147483648", "4294967295", "4294967296",
+        "9999999999", "18446744073709551615", "18446744073709551616",
+    ];
+    let finals = ["A", "B", "C", "D", "E", "F", "G", "H", "J", "K", "L", "M", "P", "X", "@", "`", "a", "d", "e", "f", "g", "r", "h", "l", "m"];
+    let mut out = vec![];
+    for (k, f) in finals.iter().enumerate() {
+        let mut ops = vec![];
+        for n in sizes.iter() {
+            ops.push(Op::Feed("\x1b[3;4Hab".into()));
+            ops.push(Op::Feed(format!("\x1b[{}{}", n, f)));
+            ops.push(Op::Feed("q".into()));
+            ops.push(Op::Feed("\x1b[3;4H".into()));
+            ops.push(Op::Feed(format!("\x1b[2;{}{}", n, f)));
+            ops.push(Op::Feed(format!("\x1b[{};2{}w", n, f)));
+        }
+        ops.push(api(Call::Display));
+        out.push(sess(format!("{}bignum{}", prop.to_lowercase(), k), 10, 5, ops));
+    }
+    out
+}
+
 fn long_param_sessions(prop: &str, r: &mut Rng) -> Vec<Session> {
     let mut out = vec![];
     let codes: [u32; 12] = [1, 3, 4, 5, 7, 9, 31, 42, 22, 27, 39, 49];
@@ -1788,6 +1815,9 @@ pub fn generate(prop: &str, tier: &str, seed: u64) -> Vec<Session> {
     out.extend(odd_param_sessions(prop, &mut r));
     if matches!(prop, "C02" | "C03" | "C08" | "C12" | "C01") {
         out.extend(long_param_sessions(prop, &mut r));
+    }
+    if matches!(prop, "C01" | "C03" | "C05") {
+        out.extend(big_number_sessions(prop));
     }
     if matches!(prop, "C03" | "C05" | "C19" | "C01" | "C02") {
         out.extend(impostor_sessions());
